@@ -668,7 +668,7 @@ func TestCheck(t *testing.T) {
 	})
 	r.Floor("retry_aborted_correctly", int64(nr/3))
 	r.Floor("faulty_retried_hellos_sent_fragmented", int64(nr/4))
-	r.Floor("faulty_hellos_sent_fragmented", int64(n/4))
+	r.Floor("faulty_hellos_sent_fragmented", int64(n/5))
 
 	// R14: every truncation / inflation of every length-prefixed vector of the outer hello
 	nt := r.N(6, 50)
